@@ -83,8 +83,8 @@ def unit(job, variant, pi, seed, length):
 def main(ck: Check):
     quick = ck.tier == "quick"
     variants = [0] if quick else [0, 1, 2]
-    plans_per = 4 if quick else 8
-    length = (25, 40) if quick else (40, 90)
+    plans_per = 4 if quick else 24
+    length = (25, 40) if quick else (60, 140)
     rng = ck.rng
     work = [(job, v, pi, ck.seed, rng.randint(*length)) for job in JOBS for v in variants for pi in range(plans_per)]
     tot = {"plays": 0, "events": 0, "restores": 0, "listened": 0, "max_queue": 0}
